@@ -98,6 +98,32 @@ class StaticListPlanning(Planning):
         pass
 
 
+class ProbeAlgo(Scheduling):
+    """Per-simulation proxy around a (possibly shared) scheduling-algorithm object: forwards
+    run() through the harness's observer, everything else unchanged."""
+
+    def __init__(self, inner, run):
+        super().__init__()
+        self.inner = inner
+        self._run = run
+
+    def __repr__(self):
+        return repr(self.inner)
+
+    def __str__(self):
+        return str(self.inner)
+
+    def run(self, cluster, clock, workflow_plan, existing_schedule, task_pool):
+        return self._run(cluster=cluster, clock=clock, workflow_plan=workflow_plan,
+                         existing_schedule=existing_schedule, task_pool=task_pool)
+
+    def to_df(self):
+        return self.inner.to_df()
+
+    def __getattr__(self, name):
+        return getattr(self.inner, name)
+
+
 class _Alien:
     """A machine object that is not part of the cluster."""
 
